@@ -578,14 +578,21 @@ func ruleMapRanges(sc scope, min int) ruleFn {
 		const rule = "R9a"
 		set := r.scopeFuncs(panicScope{label: sc.label, roots: sc.roots})
 		var fns []*ssa.Function
-		for fn := range set {
-			fns = append(fns, fn)
+		for _, fn := range r.P.Funcs {
+			if fn.Synthetic == "" {
+				fns = append(fns, fn)
+			}
 		}
 		sort.Slice(fns, func(i, j int) bool { return fnName(fns[i]) < fnName(fns[j]) })
 		n := 0
+		defer func() { r.silent = false }()
 		for _, fn := range fns {
+			// out-of-scope functions are walked silently: see Run.add
+			r.silent = !set[fn]
 			for _, l := range mapLoops(fn) {
-				n++
+				if set[fn] {
+					n++
+				}
 				name := fnName(fn)
 				construct := rangeKeyDesc(l)
 				site := r.P.pos(l.rng.Pos())
@@ -601,6 +608,7 @@ func ruleMapRanges(sc scope, min int) ruleFn {
 				}
 			}
 		}
+		r.silent = false
 		r.AtLeast(rule, "map ranges in scope "+sc.label, n, min)
 	}
 }
